@@ -279,6 +279,15 @@ func (r *rotPayload) Wrapper() wrapping.Wrapper { return r.w }
 func (r *rotPayload) HmacSalt() []byte          { return r.salt }
 func (r *rotPayload) HmacInfo() []byte          { return r.info }
 
+// rotPayloadWithID is a rotation payload that also satisfies EventWrapperInfo (it has an EventId):
+// it is still a key-rotation payload and must be consumed.
+type rotPayloadWithID struct {
+	rotPayload
+	Secret string `class:"secret"`
+}
+
+func (r *rotPayloadWithID) EventId() string { return "rotation-event-1" }
+
 // Specials runs the hand-written payloads: top-level strings and slices, nil /
 // zero payloads, rotation payloads.
 func Specials(prop, cls string) *hk.Result {
@@ -451,6 +460,11 @@ func Specials(prop, cls string) *hk.Result {
 			out, err := mk().Process(ctx, &el.Event{Type: "t", Payload: rp})
 			if out != nil || err != nil {
 				fail(fmt.Sprintf("rotation payload subset=%d", subset), "key-rotation payloads are consumed, never forwarded: got (%v, %v)", out, err)
+			}
+			count()
+			out, err = mk().Process(ctx, &el.Event{Type: "t", Payload: &rotPayloadWithID{rotPayload: *rp, Secret: "CANARYrot"}})
+			if out != nil || err != nil {
+				fail(fmt.Sprintf("rotation payload with an EventId subset=%d", subset), "key-rotation payloads are consumed, never forwarded (this one also implements EventWrapperInfo): got (%v, %v)", out, err)
 			}
 		}
 	}
